@@ -171,7 +171,7 @@ func cmdSyncRec(f hx.Flags, r *hx.Result) {
 	defer func() { log.VerifBuf, log.VerifEvt = nil, nil }()
 	fixed := time.Date(2030, 1, 2, 3, 4, 5, 678000000, time.UTC)
 	log.TimeNow = func(context.Context) time.Time { return fixed }
-	defer func() { log.TimeNow = nil }()
+	defer func() { log.TimeNow, log.FieldsFromContext, log.VerifNow, log.VerifRoll = nil, nil, nil, nil }()
 	runs := f.Int("runs", 24)
 	budget := f.Int("events", 12000) // trace events written for TLC
 	out, err := os.Create(f.Str("dump", filepath.Join(tmp, "trace.ndjson")))
@@ -240,9 +240,31 @@ func cmdSyncRec(f hx.Flags, r *hx.Result) {
 			r.SetInfra("syncrec refresh: %v", err)
 			return
 		}
-		desc := map[string]any{"sink": sinkKind, "layout": layout, "goroutines": goroutines, "events_each": per}
+		// every third run installs a context-fields hook that hands out one shared slice with spare capacity
+		var sharedCtx [8]log.Field
+		sharedCtx[0], sharedCtx[1] = log.String("trace", "t-1"), log.Int("span", 9)
+		log.FieldsFromContext = nil
+		if run%3 == 1 {
+			log.FieldsFromContext = func(context.Context) []log.Field { return sharedCtx[:2:8] }
+		}
+		// rolling sink: in half of the runs the clock jumps one interval per reading, so rotations happen all the time
+		log.VerifNow, log.VerifRoll = nil, nil
+		if sinkKind == "rolling" && (run/len(sinks))%2 == 1 {
+			var tick int64
+			base := time.Now().Truncate(time.Hour)
+			log.VerifNow = func(time.Time) time.Time { return base.Add(time.Duration(atomic.AddInt64(&tick, 1)) * time.Hour) }
+			// ... and the rotating goroutine dawdles between its steps while the others keep writing
+			log.VerifRoll = func(_ *log.RollingFileAppender, p int) {
+				if p >= 3 && p <= 6 {
+					time.Sleep(50 * time.Microsecond)
+				}
+			}
+		}
+		desc := map[string]any{"sink": sinkKind, "layout": layout, "goroutines": goroutines, "events_each": per,
+			"ctx_hook": log.FieldsFromContext != nil, "rotation_churn": log.VerifNow != nil}
 		// sizes from tens of bytes to beyond the buffer-reuse cap (1 KiB here)
-		sizes := []int{8, 40, 200, 900, 1100, 3100}
+		// with the 1 KiB reuse cap: 500 / 700 bytes of padding make the buffer's capacity exactly the cap
+		sizes := []int{8, 40, 200, 500, 700, 900, 1100, 3100}
 		type evt struct {
 			id   int64
 			size int
